@@ -33,6 +33,10 @@ def round_inc(mode, st, FQ, FR, D):
     sr = st.sign(FR)
     if sr == ZERO:
         return 0
+    if 0 in sr and mode in ('RoundHalfUp', 'RoundHalfDown', 'RoundHalfEven'):
+        # a zero remainder is "below half" as well: if the path establishes 2*rem < divisor the increment is 0 either way
+        if st.sign(padd(pscale(FR, 2), D, -1)) <= NEG:
+            return 0
     if 0 in sr:
         raise Undecided('whether the remainder is zero')
 
